@@ -38,8 +38,35 @@ def _is_digit_cell(c):
     return (isinstance(c, str) and c.isdigit()) or (isinstance(c, tuple) and c[0] == "d")
 
 
+class _Lazy:
+    """constraints tying the digit variables of one rendered number to its value: added to the path only when a digit or the
+    integer part is actually looked at (a string that is only measured - len(), partition('.') - costs the solver nothing)"""
+
+    def __init__(self, ctx, cons):
+        self.ctx, self.cons, self.done = ctx, list(cons), False
+
+    def activate(self):
+        if not self.done:
+            self.done = True
+            for c in self.cons:
+                self.ctx.axiom(c)
+
+
+def _cell_term(c):
+    """term of a digit / integer cell, making sure the constraints that define it are on the path"""
+    if len(c) > 2 and c[2] is not None:
+        c[2].activate()
+    return c[1]
+
+
 def _digit_term(c):
-    return z3.IntVal(int(c)) if isinstance(c, str) else c[1]
+    return z3.IntVal(int(c)) if isinstance(c, str) else _cell_term(c)
+
+
+def activate_all(cells):
+    for c in cells:
+        if isinstance(c, tuple):
+            _cell_term(c)
 
 
 class SStr(str):
@@ -219,15 +246,18 @@ def _fresh(prefix):
     return z3.Int(f"{prefix}{n}")
 
 
-def _int_cells(ctx, I, small_cap=9):
+def _int_cells(ctx, I, small_cap=9, lazy=None):
     """cells of a non-negative integer term: concrete digits when the path bounds it by `small_cap`, else one 'I' cell"""
     I = z3.simplify(I)
     if z3.is_int_value(I):
         return tuple(builtins.str(I.as_long()))
-    if ctx._check(I > small_cap)[0] == "unsat":
+    pending = [] if lazy is None or lazy.done else lazy.cons
+    if ctx._check(*(pending + [I > small_cap]))[0] == "unsat":
+        if lazy is not None:
+            lazy.activate()
         v = ctx.choose_int(I, cap=small_cap + 2)
         return tuple(builtins.str(v))
-    return (("I", I),)
+    return (("I", I, lazy),)
 
 
 def format_fixed(x, spec):
@@ -242,21 +272,29 @@ def format_fixed(x, spec):
     xe = K._toreal(x.e)
     neg = bool(SBool(xe < 0))
     ax = -xe if neg else xe
+    it = getattr(x, "int_term", None)
+    if isinstance(x, SInt):
+        it = x.e
+    if it is not None:
+        # an integer-valued number: its digits are those of the integer, the decimals are zeros (no rounding to model)
+        cells = (("-",) if (neg or getattr(x, "minus", False)) else (("+",) if plus else ())) + _int_cells(ctx, z3.If(it < 0, -it, it))
+        if prec:
+            cells += (".",) + ("0",) * prec
+        return _mk(cells)
     scale = 10 ** prec
     D = _fresh("fmtD")
     Dr = z3.ToReal(D)
     y = ax * scale
-    # round-half-even of the exact value
-    # correct rounding of the exact value; at an exact tie either neighbour is admitted (the renderer rounds half to even on the
-    # binary value - leaving the tie open over-approximates and keeps the constraints free of `mod`)
-    ctx.axiom(z3.And(D >= 0, 2 * (Dr - y) <= 1, 2 * (y - Dr) <= 1))
     I = _fresh("fmtI")
     digs = [_fresh("fmtd") for _ in range(prec)]
-    ctx.axiom(z3.And([I >= 0] + [z3.And(d >= 0, d <= 9) for d in digs]))
-    ctx.axiom(D == I * scale + z3.Sum([d * 10 ** (prec - 1 - i) for i, d in enumerate(digs)]) if digs else D == I)
-    cells = (("-",) if neg else (("+",) if plus else ())) + _int_cells(ctx, I)
+    # correct rounding of the exact value; at an exact tie either neighbour is admitted (the renderer rounds half to even on the
+    # binary value - leaving the tie open over-approximates and keeps the constraints free of `mod`)
+    lazy = _Lazy(ctx, [z3.And(D >= 0, 2 * (Dr - y) <= 1, 2 * (y - Dr) <= 1),
+                       z3.And([I >= 0] + [z3.And(d >= 0, d <= 9) for d in digs]),
+                       (D == I * scale + z3.Sum([d * 10 ** (prec - 1 - i) for i, d in enumerate(digs)])) if digs else (D == I)])
+    cells = (("-",) if neg else (("+",) if plus else ())) + _int_cells(ctx, I, lazy=lazy)
     if prec:
-        cells += (".",) + tuple(("d", d) for d in digs)
+        cells += (".",) + tuple(("d", d, lazy) for d in digs)
     return _mk(cells)
 
 
@@ -325,6 +363,7 @@ def sym_str(x="", *a, **k):
 class SFloatOfStr(SReal):
     """float(s) of a symbolic string: the value, remembering a leading '-' (a float keeps the sign of zero, and formatting shows it)"""
     minus = False
+    int_term = None
 
 
 def sym_float(x=0.0):
@@ -336,6 +375,7 @@ def sym_float(x=0.0):
             raise ValueError(f"could not convert string to float: {x!r}")
         r = SFloatOfStr(val["value"])
         r.minus = val["sign"] == "-"
+        r.int_term = val.get("int_term")          # set when the string had no fractional digits
         return r
     if isinstance(x, (SReal, SInt)):
         return SReal(K._toreal(x.e))
@@ -349,10 +389,13 @@ def sym_int_str(fallback):
             if a or k:
                 raise Unsupported("int(symbolic string, base)")
             cells = x.cells
-            if not cells or not all(_is_digit_cell(c) for c in cells):
+            if cells and all(_is_digit_cell(c) for c in cells):
+                n = len(cells)
+                return SInt(z3.Sum([_digit_term(c) * 10 ** (n - 1 - i) for i, c in enumerate(cells)]))
+            vc = value_of_cells(cells) if cells else None          # [+-]digits or [+-]<integer cell>
+            if vc is None or vc["dot"]:
                 raise ValueError(f"invalid literal for int() with base 10: {x!r}")
-            n = len(cells)
-            return SInt(z3.Sum([_digit_term(c) * 10 ** (n - 1 - i) for i, c in enumerate(cells)]))
+            return SInt(vc["int_term"])
         if isinstance(x, str):
             return builtins.int(x, *a, **k)
         return fallback(x, *a, **k)
@@ -391,7 +434,7 @@ def value_of_cells(cells):
     if any(isinstance(c, tuple) and c[0] == "I" for c in ip):
         if len(ip) != 1:
             return None          # an integer cell next to digits: not a shape the renderers produce
-        iv = z3.ToReal(ip[0][1])
+        iv = z3.ToReal(_cell_term(ip[0]))
     else:
         n = len(ip)
         iv = z3.ToReal(z3.Sum([_digit_term(c) * 10 ** (n - 1 - k) for k, c in enumerate(ip)])) if n > 1 else z3.ToReal(_digit_term(ip[0]))
@@ -410,7 +453,11 @@ def value_of_cells(cells):
         if decs:
             fr = z3.Sum([z3.ToReal(_digit_term(c)) * z3.RealVal(Fraction(1, 10 ** (k + 1))) for k, c in enumerate(decs)])
     v = iv + fr
-    return {"sign": sign, "value": -v if sign == "-" else v, "ndec": ndec, "dot": dot}
+    out = {"sign": sign, "value": -v if sign == "-" else v, "ndec": ndec, "dot": dot}
+    if ndec == 0:
+        ii = z3.simplify(z3.ToInt(iv))
+        out["int_term"] = -ii if sign == "-" else ii
+    return out
 
 
 def install():
